@@ -1,5 +1,6 @@
 """FFT Functions with proper dispatching for Dask Arrays."""
 
+import numpy as np
 import scipy.fft
 from functools import singledispatch
 import dask.array as da
@@ -75,7 +76,10 @@ def __getattr__(name):
         kwargs = {
             k: v for k, v in kwargs.items() if k not in ("overwrite_x", "workers", "plan")
         }
-        wrapped_func = da.fft.fft_wrap(_fft_func)
+        # Tell dask the output dtype (it would otherwise transform an array of
+        # 8 ** ndim ones to find out): it depends on the input dtype only.
+        probe = np.ones((2,) * max(x.ndim, 2 if name.endswith("2") else 1), dtype=x.dtype)
+        wrapped_func = da.fft.fft_wrap(_fft_func, dtype=_fft_func(probe).dtype)
         return wrapped_func(x, *args, **kwargs)
 
     func.__qualname__ = _fft_func.__qualname__
